@@ -8,14 +8,14 @@ HERE = os.path.dirname(os.path.abspath(__file__))
 CHECKS = {
  "C01": ("runtime oracle: dual-number reference derivatives vs observed layer/network gradients over generated configurations",
          "Exploration. The real backward passes (public layer backward, hooked Network::backward, one SGD step of learn) are executed over a covering enumeration of (kernel,stride,padding,dilation) plus random architectures, and every gradient entry is compared with the exact forward-mode derivative of an independently written f64 reference, within a bound derived from the magnitude of the summed terms. Decides the property on the executions produced, not for all architectures.",
-         "Trusts the reference model in harness/src/refmodel.rs (written from the definitions, cross-checked by C02 against forward), f64 arithmetic, and the tolerance 5e-4*G+2e-3*|g| justified in DESIGN.md 2.4. Kinks/ties within 1e-3 are regenerated.", "4/C01"),
+         "Trusts the reference model in harness/src/refmodel.rs (written from the definitions, cross-checked by C02 against forward), f64 arithmetic, and the first-order error bound carried by the dual-number type (DESIGN.md section 11). Kinks/ties within 1e-3 are regenerated.", "4/C01"),
  "C02": ("runtime oracle: f64 reference operators with running rounding-error bound vs observed forward outputs",
          "Exploration. Dense/convolution/deconvolution/max-pool forward and Network::predict are executed on enumerated and random configurations, flat and 3-D input, scaled magnitudes; outputs must lie within a running f32 error bound of the reference operator and be bit-identical across input representations.",
          "Trusts the gather-form reference operators and the error-bound scalar type E (refmodel.rs).", "4/C02"),
  "C03": ("history monitor: executable f64 model of the documented update equations vs observed parameter trajectories",
          "Exploration over optimizer histories: every step of every generated history is compared with the documented equations, across ranks, across interleaved slots, with finiteness monitored.",
          "Trusts my transcription of the documented equations (doc comments in optimizer.rs) and the history tolerance of DESIGN.md 2.4.", "4/C03"),
- "C04": ("trace checker over the hooked Forward/Update event log + twin reference trainer",
+ "C04": ("trace checker over the hooked Forward/Update event log + twin reference trainer + equivalent-run monitors (one call vs one call per group; one-loop block vs inline layers)",
          "Exploration. Each learn() run is checked against the trace grammar (ordered groups, exactly-once, one update per group, stepnr = epoch) and against a twin trainer that recomputes the run from per-sample gradients; bit-exact for SGD.",
          "Trusts the event hooks (entry of Network::forward / Network::update) and rayon's join semantics for the happens-before between a group's Forward events and its Update.", "4/C04"),
  "C05": ("differential monitor across rayon pool sizes with injected stalls + Miri many-seeds schedule exploration",
@@ -46,16 +46,16 @@ CHECKS = {
          "Exploration over validation-loss trajectories; the checker decides the early-stopping contract on each observed history and on the epoch count observed in the event log.",
          "No value is injected into the library; trajectories are steered through data and learning rate.", "4/C13"),
  "C14": ("runtime oracle on index-valued tensors; exhaustive over small shape pairs",
-         "Exhaustive exploration over (c,h,w) in 1..6^3 source/target pairs (thorough), sizes <= 4 (quick).",
+         "Exhaustive exploration over (c,h,w) in 1..6^3 sources towards all targets (quick) and 1..8^3 (thorough), plus sampled large tensors up to 131072 elements.",
          "none beyond the harness", "4/C14"),
  "C15": ("runtime oracle: per-element IEEE f32 recomputation; mismatch pairs must be refused",
-         "Exploration over ranks, shapes, special values; exhaustive small-shape mismatch matrix.",
+         "Exploration over ranks, shapes (incl. dimensions around powers of two up to 4097), special values, a dyadic palette and sorted data; mismatch pairs incl. ragged nested lists.",
          "Any association of the three factors of the scaled Hadamard product is accepted.", "4/C15"),
  "C16": ("runtime oracle: reference network with skips (values, bookkeeping of accepted connections, dual-number gradients)",
-         "Exploration over networks, index pairs, accumulations.",
+         "Exploration over networks, index pairs, accumulations, chains / shared sources / self connections / max-pool links, connections added before and after first use.",
          "Chained connections: both readings of 'input fed to layer a' accepted.", "4/C16"),
  "C17": ("runtime oracle: reference loop semantics + metamorphic comparison with a physically unrolled library network",
-         "Exploration over ranges, iteration counts, accumulations.",
+         "Exploration over ranges, iteration counts, accumulations, several loops per network, loops next to blocks and skip connections.",
          "Trusts the reference loop semantics written from the property statement.", "4/C17"),
  "C18": ("exhaustive runtime sweep of all 2^31-2 generator states (thorough); black-box shuffle/permutation monitor over seed classes",
          "Exhaustive exploration of the generator state space in the thorough tier (every state: range panel + shuffle safety), sampled seeds and lengths for the black-box part.",
